@@ -98,6 +98,57 @@ def cases_for(pid, seed):
     return []
 
 
+def witness_cases(pid, layer, wit, seed):
+    """property-level replay cases derived from lower-layer witnesses (limb vectors on which a field / scalar kernel or method
+    violates its contract): the witness becomes a projective scaling, a coordinate, a field element fed to the map, a scalar,
+    an entropy block - whatever reaches the lower layer through this property's API"""
+    hx = lambda v: '%064x' % v
+    mod = P if layer == 'field' else N
+    vals = []
+    for w in wit:
+        for v in (w * pow(R, -1, mod) % mod, w % mod):     # the value whose Montgomery form is the witness, and the witness read as a value
+            if v and v not in vals:
+                vals.append(v)
+    vals = vals[:8]
+    cs = []
+    if not vals:
+        return cs
+    if layer == 'field':
+        sc = ','.join(hx(v) for v in vals)
+        if pid in ('C02', 'C01'):
+            cs += [{'kind': 'el-scaled', 'a': hx(v), 'b': hx(1)} for v in vals] + [{'kind': 'el-scaled', 'a': hx(1), 'b': hx(v)} for v in vals]
+            cs.append({'kind': 'el-battery', 'op': 'group', 'n': seed, 'a': sc})
+        if pid == 'C01':
+            cs += [{'kind': 'multiply', 'a': hx(k), 'b': hx(j), 'c': hx(v)} for v in vals for k in (N - 1, 2**255 + 5, 3) for j in (1, 5)]
+        if pid == 'C04':
+            cs.append({'kind': 'el-battery', 'op': 'encode', 'n': seed, 'a': sc})
+        if pid == 'C05':
+            cs.append({'kind': 'el-battery', 'op': 'equal', 'n': seed, 'a': sc})
+        if pid in ('C03', 'C04'):
+            cs += [{'kind': 'el-decode', 'a': pre + hx(v)} for v in vals for pre in ('02', '03')]
+            cs += [{'kind': 'el-decode', 'a': '04' + hx(GX) + hx(v)} for v in vals] + [{'kind': 'el-decode', 'a': '04' + hx(v) + hx(GY)} for v in vals]
+        if pid in ('C11', 'C08'):
+            cs += [{'kind': 'sswu', 'a': hx(v)} for v in vals]
+        if pid == 'C19':
+            cs.append({'kind': 'schedule', 'a': ','.join(hx(k) for k in (0, 2, 3, N - 1, 2**255, 6))})
+    else:
+        if pid == 'C06':
+            cs += [{'kind': 'scalar-op', 'op': op, 'a': hx(a), 'b': hx(b)} for a in vals[:4] for b in vals[:4] + [1, N - 1] for op in ('add', 'sub', 'mul')]
+        if pid == 'C07':
+            cs += [{'kind': 'scalar-views', 'a': hx(v)} for v in vals]
+        if pid == 'C13':
+            others = vals + [1, N - 1, (N - 1) // 2]
+            cs += [{'kind': 'lessorequal', 'a': hx(a), 'b': hx(b)} for a in vals for b in others] + [{'kind': 'lessorequal', 'a': hx(b), 'b': hx(a)} for a in vals for b in others]
+            cs += [{'kind': 'equal', 'a': hx(a), 'b': hx(b)} for a in vals for b in others]
+        if pid == 'C14':
+            cs += [{'kind': 'bits', 'a': hx(v)} for v in vals]
+        if pid in ('C01', 'C19'):
+            cs += [{'kind': 'multiply', 'a': hx(v), 'b': hx(j), 'c': hx(l)} for v in vals for j, l in ((1, 1), (5, 7))]
+        if pid == 'C18':
+            cs += [{'kind': 'random', 'a': hx(v) + hx(5)} for v in vals] + [{'kind': 'random', 'a': '00' * 32 + hx(v) + hx(7)} for v in vals]
+    return cs
+
+
 def length_cases(pid, failures, seed):
     """(|msg|, |dst|) pairs named by failed obligations (tags contain mM.dD), replayed with seeded contents"""
     import re
